@@ -213,14 +213,14 @@ theorem C01_delivered_parts (H : Http) (R : HttpRoundTrip H) (role : Role) (m : 
   refine ⟨?_, ?_, fun n => hmIter_mapOf_filter m.headers n, fun t n _ => hmIter_mapOf_filter t n⟩
   · intro p hp
     cases hhead with
-    | request m method uri ext u hm hpb hb =>
+    | request m method uri ext u hm hpb hb _ =>
       cases hp
       have hu := R.uri_parts _ _ _ _ hb
       refine ⟨method, uri, ext, hm, rfl, ?_, ?_, ?_, rfl, rfl⟩ <;> simp only [hu]
     | response m status hm h1 h2 => cases hp
   · intro st hmap hp
     cases hhead with
-    | request m method uri ext u hm hpb hb => cases hp
+    | request m method uri ext u hm hpb hb _ => cases hp
     | response m status hm h1 h2 => cases hp; exact ⟨hm, rfl⟩
 
 /-- the crate's own values satisfy `PseudoBack` for a request: from the round-trip laws, when the
@@ -407,6 +407,30 @@ example : deliver toy .client 1000 (chunked 2 (wire m₂)) =
     { head := some (.response 204 [([120], [[49]])]), body := [], cleanEnd := true, ends := 1,
       trailers := some none, env := {} } := by decide +kernel
 
+/-- several identical `Host` values survive the trip, in order; differing ones do not: the sender
+    (`Header::request` compares only the first one with the URI's authority) submits them, the
+    receiving h3 refuses the request (D-12e: every `Host` value must be the authority) — the
+    hypothesis of `HeadOk.request` on the submitted `Host` values cannot be dropped -/
+def m₃ : Message :=
+  { head := .request GET ⟨some sHttps, some aCom, some slash⟩ none
+    headers := [(nHost, aCom), ([120], [49]), (nHost, aCom)]
+    pieces := []
+    trailers := none }
+def m₄ : Message :=
+  { head := .request GET ⟨some sHttps, some aCom, some slash⟩ none
+    headers := [(nHost, aCom), ([120], [49]), (nHost, [98])]
+    pieces := []
+    trailers := none }
+
+example : (deliver toy .server 1000 (chunked 3 (wire m₃))).head =
+    some (.request { method := GET, uri := { scheme := some sHttps, authority := some aCom, path := some slash },
+                     protocol := none, headers := [(nHost, [aCom, aCom]), ([120], [[49]])] }) := by decide +kernel
+def h₄ : Header :=
+  { pseudo := Pseudo.request GET ⟨some sHttps, some aCom, some slash⟩ none
+    fields := [(nHost, [aCom, [98]]), ([120], [[49]])] }
+example : headerOf m₄ = .ok h₄ ∧
+    (deliver toy .server 1000 (chunked 3 (wire m₄))).head = none := by decide +kernel
+
 /-- the sender: HEADERS trickles out one byte at a time with `Pending` in between, the rest in
     bigger bites; the log is `wire m₁` and the stream is finished -/
 example : (sendAll (freshStream false) (callsOf (framesOf m₁ h₁) 0
@@ -458,7 +482,7 @@ theorem fits₁ : Fits m₁ h₁ 273 where
   trailerSize := by intro t ht; cases ht; decide +kernel
 
 theorem headOk₁ : HeadOk toy .server m₁ out₁ := by
-  refine HeadOk.request m₁ GET ⟨some sHttps, some aCom, some slash⟩ none _ rfl ?_ (by decide)
+  refine HeadOk.request m₁ GET ⟨some sHttps, some aCom, some slash⟩ none _ rfl ?_ (by decide) (by decide)
   exact ⟨(by intro m h; cases h; decide), (by intro s h; cases h; decide),
     (by intro a h; cases h; decide), (by intro x h; cases h; decide), (by intro st h; cases h),
     (by intro x h; cases h)⟩
